@@ -332,7 +332,10 @@ def run(tier, seed, replay):
                 "(generic, equispaced, repeated, symmetric, total, zeros) vs rowDegeneracy, exact; "
                 "(2) reduced influence tables vs full tables at class representatives, exact; "
                 "(3) real Tempo(unique=True/False) and PtTempo(unique=True)+compute_dynamics vs tempoState with uniqueTbl / full tables (1e-8) and "
-                "model-unique vs model-full (1e-12).  Non-trivial = at least one class merges indices.")
+                "model-unique vs model-full (1e-12); forced: repeated eigenvalue, total degeneracy, four steps "
+                "beyond a one-step memory with an additional correlation time of 1.5 dt; every mean-field "
+                "species uses its own bath's maps and tables (exact).  Non-trivial = at least one class "
+                "merges indices.")
     res.assumptions = ["the code rounds keys to 12 decimals before np.unique; the model compares keys "
                        "exactly (inputs are dyadic so both agree)"]
     res.not_shown = ["mean-field TEMPO with unique=True uses the same backend step; no separate theorem"]
